@@ -47,7 +47,19 @@ def _cargo_env(extra=None):
     return e
 
 
+def _sync_manifest():
+    """the replay crate depends on <repo>/utils by path; follow vlib.REPO (ABRA_REPO) like vlib.build_harness does"""
+    manifest = os.path.join(CRATE, "Cargo.toml")
+    with open(manifest) as fh:
+        text = fh.read()
+    want = re.sub(r'utils = \{ path = "[^"]*" \}', 'utils = { path = "%s/utils" }' % vlib.REPO, text)
+    if want != text:
+        with open(manifest, "w") as fh:
+            fh.write(want)
+
+
 def build_asan():
+    _sync_manifest()
     t0 = time.time()
     p = subprocess.run(["cargo", "+" + NIGHTLY, "build", "--offline", "-q", "--target", "x86_64-unknown-linux-gnu",
                         "--features", "asan"],
@@ -61,6 +73,7 @@ def build_asan():
 
 def build_miri(wd):
     """compile for Miri once (serially) so that the parallel runs only interpret"""
+    _sync_manifest()
     t0 = time.time()
     empty = os.path.join(wd, "miri_warmup.ndjson")
     open(empty, "w").close()
@@ -227,8 +240,8 @@ def run(channel, cases, wd, name, jobs=8, case_timeout=10.0, startup=30.0, isola
     if n == 0:
         return [], {"processes": 0, "wall_s": 0.0}
     jobs = max(1, min(jobs, n))
-    if isolate:
-        jobs = max(jobs, -(-n // 400))        # every process reads its shard file: keep the files small
+    # every process reads its whole shard file, and a crash costs a restart: keep the files small
+    jobs = max(jobs, -(-n // (400 if isolate else 2500)))
     shards = [list(range(j, n, jobs)) for j in range(jobs)]
     gate = threading.Semaphore(MAX_JOBS)      # more shards than processes allowed at once: they take turns
     results = [None] * n
